@@ -30,7 +30,7 @@ from ..cfg import explore
 from ..rules import node_calls, event_facts, settle_sites
 from ..mutate import mutate, remove_stmts, replace_expr, replace_stmt, parse_stmt, parse_expr
 from ..model import AnalysisError
-from ..x_guardflow import ClassEffects, guard_facts, has
+from ..x_guardflow import ClassEffects, guard_facts, has, expand_expr
 
 TECHNIQUE = "reachability/dominance on the CFG, paired-update lint, finite-domain folding of the overflow and resolve predicates, FIFO-operation table"
 EXPLANATION = (
@@ -124,7 +124,8 @@ def write(ck):
             chain.reverse()
             tests.append(chain[0] if len(chain) == 1 else ast.BoolOp(op=ast.And(), values=chain))
     ck.need(len(tests) == len(raises), "the refusal is not the body of an if")
-    for t in tests:
+    for t0 in tests:
+        t = expand_expr(ck.repo, fi, t0)
         bad = []
         for m in (None, 0, 1, 2, 3, 4):
             for w in range(0, 4):
@@ -137,7 +138,7 @@ def write(ck):
                     want = m is not None and w + d > m
                     if got != want:
                         bad.append("max=%s buffered=%d new=%d -> %s" % (m, w, d, got))
-        ck.ob("C12.refuse-before-mutate", fi, t, not bad, "a write is refused exactly when len(write buffer) + len(data) > max_write_buffer_size (96 cases folded%s)" % ((": " + "; ".join(bad[:3])) if bad else ""))
+        ck.ob("C12.refuse-before-mutate", fi, t0, not bad, "a write is refused exactly when len(write buffer) + len(data) > max_write_buffer_size (96 cases folded%s)" % ((": " + "; ".join(bad[:3])) if bad else ""))
     # every append passed the test: path-sensitive on the test's atoms
     atoms = set()
     for t in tests:
@@ -183,7 +184,7 @@ def write(ck):
         ck.ob("C12.index-pair", fi, a.ast, len(c.args) == 1 and q.dotted(c.args[0]) == data, "the written data itself is appended to the write buffer")
     ck.ob("C12.index-pair", fi, fi.node, len(idx) >= 1, "write advances _total_write_index", construct="_total_write_index update in write")
     for i in idx:
-        v = i.ast.value
+        v = expand_expr(ck.repo, fi, i.ast.value)
         ck.ob("C12.index-pair", fi, i.ast, q.is_call(v, "len") and q.dotted(v.args[0]) == data, "_total_write_index grows by len(data)")
     aid = {a.id for a in appends}
     iid = {i.id for i in idx}
@@ -344,6 +345,13 @@ def stream_buffer(ck):
                 ck.ob("C12.buffer-fifo", fi, x, idxv == want, "%s looks at the %s chunk only" % (fi.name, "newest (tail, for coalescing)" if want == -1 else "oldest (head)"))
     ck.floor("C12.buffer-fifo", n_ops, 5, "deque operations in _StreamBuffer")
 
+    # units: len(buffer) is the number of buffered *bytes*
+    ln = ck.func(IO, SB + ".__len__")
+    lr = [x for x in q.walk_body(ln.node) if isinstance(x, ast.Return)]
+    ck.ob("C12.buffer-size", ln, ln.node, len(lr) == 1 and q.dotted(lr[0].value) == "self._size", "len(_StreamBuffer) is the byte count _size (write()'s overflow test and _handle_write's loop rely on bytes, not chunks)", construct="_StreamBuffer.__len__ returns self._size")
+    init_sb = ck.func(IO, SB + ".__init__")
+    z = [st for st in q.stores_to(init_sb.node, "self._size")]
+    ck.ob("C12.buffer-size", init_sb, z[0] if z else init_sb.node, len(z) == 1 and q.is_const(getattr(z[0], "value", None), 0), "_size starts at 0")
     # append: size bookkeeping and single store
     data = _params(app)[0]
     szs = [st for st in q.walk_body(app.node) if isinstance(st, ast.Assign) and q.is_call(st.value, "len") and q.dotted(st.value.args[0]) == data and isinstance(st.targets[0], ast.Name)]
@@ -374,8 +382,19 @@ def stream_buffer(ck):
     seen = explore(app.cfg, (0, 0), tr, track, follow_exc=False)
     states = seen.get(app.cfg.exit.id, set())
     ck.need(states, "append has no normal exit")
+    def _sizes(f):
+        """sizes 0..6 consistent with the tracked branch facts (threshold folded as 4)"""
+        out = set()
+        for k in range(0, 7):
+            try:
+                if all(bool(q.fold(ast.parse(t, mode="eval").body, {sz: k, "self._large_buf_threshold": 4})) == p for t, p in f):
+                    out.add(k)
+            except q.NotFoldable as ex:
+                raise AnalysisError("cannot evaluate the size test in _StreamBuffer.append: %s" % ex)
+        return out
+
     for f, (a, b) in sorted(states, key=repr):
-        nonempty = any(p for (t, p) in f)
+        nonempty = bool(_sizes(f) - {0}) if sz.isidentifier() else any(p for (t, p) in f)
         ck.ob("C12.buffer-size", app, app.node, a == 1, "_size is updated exactly once on every path of append (count %d)" % a, construct="append path: size updates=%d" % a)
         ck.ob("C12.buffer-size", app, app.node, b == (1 if nonempty else 0), "non-empty data is stored exactly once, empty data not at all (stores=%d, non-empty=%s)" % (b, nonempty), construct="append path: stores=%d nonempty=%s" % (b, nonempty))
     # the size is measured before data is re-wrapped; re-wrapping keeps the bytes
@@ -598,7 +617,37 @@ def _size_only_large(root):
     return False
 
 
+def _hoist_index_update(root):
+    # seeded C12-adv1: `size = len(data); self._total_write_index += size` above the refusal
+    for n in ast.walk(root):
+        b = getattr(n, "body", None)
+        if isinstance(b, list):
+            i = [k for k, s in enumerate(b) if isinstance(s, ast.If) and "StreamBufferFullError" in _src(s)]
+            j = [k for k, s in enumerate(b) if isinstance(s, ast.AugAssign) and "_total_write_index" in _src(s.target)]
+            if i and j and i[0] < j[0]:
+                b.pop(j[0])
+                b[i[0]:i[0]] = [parse_stmt("size = len(data)"), parse_stmt("self._total_write_index += size")]
+                return True
+    return False
+
+
+def _future_queued_before_refusal(root):
+    b = root.body
+    fi_ = [k for k, s in enumerate(b) if isinstance(s, ast.Expr) and "self._write_futures.append" in _src(s)]
+    mk = [k for k, s in enumerate(b) if isinstance(s, ast.AnnAssign) and "Future" in _src(s)]
+    if fi_ and mk:
+        sts = [b[mk[0]], b[fi_[0]]]
+        for st in sts:
+            b.remove(st)
+        k = [k for k, s in enumerate(b) if isinstance(s, ast.Expr) and "_check_closed" in _src(s)][0]
+        b[k + 1:k + 1] = sts
+        return True
+    return False
+
+
 MUTANTS = [
+    ("seeded C12-adv1: index update hoisted above the refusal (through a local)", _in(B + ".write", _hoist_index_update), "C12.refuse-before-mutate"),
+    ("future created and queued before the refusal", _in(B + ".write", _future_queued_before_refusal), "C12.refuse-before-mutate"),
     ("data appended before the overflow check", _in(B + ".write", _append_before_check), "C12.refuse-before-mutate"),
     ("overflow check ignores what is already buffered", _in(B + ".write", replace_expr(lambda n: isinstance(n, ast.BinOp) and isinstance(n.op, ast.Add) and "len(self._write_buffer)" in _src(n.left), lambda n: n.right)), "C12.refuse-before-mutate"),
     ("memoryview not cast to bytes", _in(B + ".write", replace_stmt(lambda st: isinstance(st, ast.If) and "isinstance(data, memoryview)" in _src(st.test), lambda st: [ast.Pass()])), "C12.bytes-units"),
@@ -614,6 +663,8 @@ MUTANTS = [
     ("_StreamBuffer.append coalesces into the oldest chunk", _in(SB + ".append", replace_expr(lambda n: isinstance(n, ast.Subscript) and _src(n.value) == "self._buffers", lambda n: ast.Subscript(value=n.value, slice=ast.Constant(value=0), ctx=ast.Load()))), "C12.buffer-fifo"),
     ("small chunks stored by reference (coalescing rebinds a local, data lost)", _in(SB + ".append", replace_expr(lambda n: isinstance(n, ast.Call) and _src(n.func) == "bytearray", lambda n: n.args[0])), "C12.buffer-kinds"),
     ("coalescing into a memoryview chunk", _in(SB + ".append", replace_expr(lambda n: isinstance(n, ast.BoolOp) and isinstance(n.op, ast.Or) and "is_memview" in _src(n), lambda n: n.values[1])), "C12.buffer-kinds"),
+    ("len(_StreamBuffer) counts chunks instead of bytes", _in(SB + ".__len__", replace_stmt(lambda st: isinstance(st, ast.Return), lambda st: [parse_stmt("return len(self._buffers)")])), "C12.buffer-size"),
+    ("one-byte writes are dropped (elif size > 1)", _in(SB + ".append", replace_expr(lambda n: isinstance(n, ast.Compare) and _src(n) == "size > 0", lambda n: parse_expr("size > 1"))), "C12.buffer-size"),
     ("_size only updated for large chunks", _in(SB + ".append", _size_only_large), "C12.buffer-size"),
     ("advance accepts size 0 / beyond the buffer", _in(SB + ".advance", replace_expr(lambda n: isinstance(n, ast.Compare) and len(n.ops) == 2, lambda n: ast.Compare(left=n.left, ops=[ast.LtE()], comparators=[n.comparators[0]]))), "C12.buffer-size"),
     ("peek ignores the head position", _in(SB + ".peek", replace_stmt(lambda st: isinstance(st, ast.Assign) and _src(st.value) == "self._first_pos", lambda st: [parse_stmt("pos = 0")])), "C12.buffer-pos"),
